@@ -47,6 +47,8 @@ REQUIRED_THEOREMS = [
     "cache_sound_of_faithful_on", "events_sound_of_faithful_on", "grid_obs_of_key_eq", "arg_obs_of_key_eq",
     "kwargs_obs_of_key_eq", "opreq_obs_of_key_eq", "make_operator_cache_sound", "make_operator_events_sound",
     "kwargs_method_cache_sound",
+    "registry_cache_sound_by_info", "registry_cache_stale_by_name", "served_of_faithful_key", "pde_operator_table_faithful",
+    "pde_operator_table_order_independent", "pde_bc_per_variable", "pde_shared_table_serves_first", "pde_shared_operator_table_unsound",
 ]
 RULE = ("pairs: a seed-derived base request (grid of every class, operator, per-side boundary conditions of every "
         "constant class incl. normal/mixed/periodic - normal_* with EVERY operator of rank >= 1 -, dtype, kwargs) and a variant "
@@ -57,20 +59,36 @@ RULE = ("pairs: a seed-derived base request (grid of every class, operator, per-
         "3-12 operations over 1-2 grids and 1-4 fields drawn from the same vocabulary (operators, ghost-cell setters, "
         "interpolation, PDEs with numeric/field constants, two-variable PDEs on collections, argument objects shared between "
         "requests, one PDE object on twin grids of different class, evaluate, solve); distinct by the operation list, "
-        "non-trivial if the last call touches a cache that an earlier operation filled.  heap / heap:jit: 3-14 events on one "
-        "field {write, relink, assign, interpolate, interpreted rate, compiled rate}")
+        "non-trivial if the last call touches a cache that an earlier operation filled; theme rereg: a custom operator registered "
+        "(register_operator) under a name that is registered again later with another factory / at another (backend class, grid class) "
+        "slot / removed / set back, asked through field.apply_operator, grid.make_operator, grid.make_operator_no_bc(name), "
+        "NumbaBackend.make_operator(grid, name), a PDE object, evaluate, on the queried and on an equal unqueried grid object.  heap / "
+        "heap:jit: 3-14 events on one field {write, relink, assign, interpolate, interpreted rate, compiled rate}.  registry: 4-12 "
+        "events {register at one of four slots, unregister, query through one of eight call sites on one of two equal grid / PDE "
+        "objects} against the registry machine; non-trivial if a query follows the second change.  pdevars: PDEs with 2-3 variables "
+        "whose equations use the same operator name (laplace / gradient_squared / d2_dx2, some a second one, some coupled "
+        "algebraically), every variable with conditions of another kind (value / derivative / mixed / curvature) given as VAR:OP, "
+        "VAR:* or the default bc, in EVERY order of the variables, queried through evolution_rate / make_pde_rhs numpy+numba / "
+        "solve, some after an earlier request in the same process; distinct by configuration + order, non-trivial if the "
+        "conditions of the variables differ")
 ASSUMPTIONS = [
     "the builtin hash of str/bytes/tuple/frozenset is idealised as injective (chance collisions of the 64-bit hash "
     "are excluded); its systematic coincidences (numeric hash modulo 2^61-1, hash(-1)=-2, None, '' and b'', ASCII "
     "str vs bytes, list vs tuple) are modelled and compared exactly",
-    "global configuration (default backend, numba options) is held fixed within a history (as the property says)",
-    "fresh interpreter = process forked from one that has only imported pde (no py-pde call made); a subset of the "
-    "histories is additionally run in a really new interpreter",
+    "global configuration (default backend, numba options: the entries of `pde.config`) is held fixed within a history (as the "
+    "property says).  Registering an operator (`register_operator`) is NOT counted as a configuration option: the registry is the "
+    "binding of the `operator` argument (like the contents of a field are the binding of a field), the statement forbids a "
+    "dependence on `which other operators ... were created, queried ... before`, and after a name was registered again two equal "
+    "grid objects answer the same request differently depending only on whether one of them was queried before.  The reference of "
+    "a history with registrations is therefore a fresh process that performs only the LAST registration of every slot",
+    "fresh interpreter = process forked from one that has only imported pde and initialised third-party libraries (sympy's "
+    "parser, numba's typed dictionary); no py-pde call made; a subset of the histories is additionally run in a really new interpreter",
     "MPI conditions (_MPIBC._cache_hash), jax/torch backends are not installed: their keys are modelled but not run",
     "a function object handed out earlier (a compiled rhs, an interpolator) and kept by the caller is not called again "
     "after the state changed: every query of a history asks py-pde again (make_pde_rhs, make_interpolator, solve ...), "
     "as the property's 'requests' do",
 ]
+MIN_LEGS = {"registry": 100, "pdevars:S": 60, "pdevars:J": 1, "histories:S": 150}
 TRUSTED_EXTRA = ["harness/common/pygraph.py: the serialiser of real objects into model object graphs (my reading of "
                  "which branch of hash_mutable applies; it never calls hash_mutable)"]
 
@@ -91,6 +109,13 @@ KEY_UNINIT = {"call_site": "NumbaBackend.make_operator", "conditions": "normal_*
 KEY_UNINIT_FIELD = {"call_site": "DataFieldBase.apply_operator", "conditions": "normal_*",
                     "symptom": "ghost cells that no condition sets are read uninitialised (np.empty)"}
 KEY_CRASH = {"call_site": "history", "symptom": "crash or setup error on one side only"}
+# finding I (this round): caches that are asked with an operator NAME keep the implementation that was registered when they
+# were filled, after the name was registered again with another factory (`register_operator`)
+REREG_SYMPTOM = "the implementation registered earlier is used after the name was registered again"
+KEY_REREG_NOBC = {"call_site": "GridBase.make_operator_no_bc", "argument": "operator given by name", "symptom": REREG_SYMPTOM}
+KEY_REREG_BACKEND = {"call_site": "NumbaBackend.make_operator", "argument": "operator given by name", "symptom": REREG_SYMPTOM}
+KEY_REREG_PDE = {"call_site": "PDE._prepare_cache", "argument": "PDE object prepared before the registration", "symptom": REREG_SYMPTOM}
+KEY_PDEVARS = {"call_site": "PDE._prepare_cache", "symptom": "a variable of a multi-variable PDE is served the operator prepared for another variable"}
 
 
 # ==========================================================================================
@@ -750,6 +775,30 @@ def wrapper_key(args, kwargs):
     return hash_mutable(tuple([args, kwargs]))
 
 
+def uncached(cls, name):
+    """(the function behind the cached method `cls.name`, whether the public method itself is the cached one).  Where the
+    public method only resolves its arguments and delegates to a cached private method `_<name>...` (repair of finding I:
+    the operator is resolved BEFORE the cache is consulted) the private method's function is returned"""
+    f = getattr(cls, name)
+    if hasattr(f, "__wrapped__"):
+        return f.__wrapped__, True
+    for n, g in vars(cls).items():
+        if n.startswith("_" + name) and hasattr(g, "__wrapped__"):
+            return g.__wrapped__, False
+    raise AttributeError(f"no cached method behind {cls.__name__}.{name}")
+
+
+def nobc_cached_call(grid, opname, kw, public_is_cached):
+    """positional and keyword arguments as the CACHED function behind `grid.make_operator_no_bc(opname, **kw)` gets them"""
+    if public_is_cached:
+        return (opname,), dict(kw)
+    from pde import get_backend
+    be = get_backend(kw.get("backend", "default"))
+    info = be.get_operator_info(grid, opname)
+    rest = {k: v for k, v in kw.items() if k not in ("backend", "dtype")}
+    return (info,), dict({"backend": be, "dtype": kw.get("dtype")}, **rest)
+
+
 def build_req(r):
     from pde import get_backend
     grid = make_grid(r["grid"])
@@ -846,7 +895,7 @@ def heap_dependence_field(grid, info, req, seed):
 def real_req_pair(case):
     from harness.common import pygraph as G
     from pde.backends.numba.backend import NumbaBackend
-    fresh_make = NumbaBackend.make_operator.__wrapped__
+    fresh_make = uncached(NumbaBackend, "make_operator")[0]
     out = {}
     built = []
     for tag in ("a", "b"):
@@ -1064,14 +1113,18 @@ def real_interp_pair(case):
 def real_nobc_pair(case):
     from harness.common import pygraph as G
     from pde.grids.base import GridBase
-    fresh_make = GridBase.make_operator_no_bc.__wrapped__
+    fresh_make, public_is_cached = uncached(GridBase, "make_operator_no_bc")
     grid = make_grid(case["grid"])
     kwa = {k: dec(v) for k, v in case["a"]["kw"]}
     kwb = {k: dec(v) for k, v in case["b"]["kw"]}
     opa, opb = case["a"]["op"], case["b"]["op"]
-    out = {"hash_eq": wrapper_key((opa,), kwa) == wrapper_key((opb,), kwb)}
     try:
-        gra, grb = G.ser(tuple([(opa,), kwa])), G.ser(tuple([(opb,), kwb]))
+        (aa, ka), (ab, kb) = nobc_cached_call(grid, opa, kwa, public_is_cached), nobc_cached_call(grid, opb, kwb, public_is_cached)
+    except Exception as e:
+        return {"error": exc_class(e)}
+    out = {"hash_eq": wrapper_key(aa, ka) == wrapper_key(ab, kb)}
+    try:
+        gra, grb = G.ser(tuple([aa, ka])), G.ser(tuple([ab, kb]))
         out["ga"], out["gb"] = gra, grb
     except G.Unmodelled as e:
         out["unmodelled"] = str(e)
@@ -1079,8 +1132,8 @@ def real_nobc_pair(case):
         ca = grid.make_operator_no_bc(opa, **kwa)
         cb = grid.make_operator_no_bc(opb, **kwb)
         out["shared"] = ca is cb
-        fa = fresh_make(grid, opa, **kwa)
-        fb = fresh_make(grid, opb, **kwb)
+        fa = fresh_make(grid, *aa, **ka)
+        fb = fresh_make(grid, *ab, **kb)
     except Exception as e:
         out["error"] = exc_class(e)
         return out
@@ -1431,8 +1484,111 @@ def judge_pairs(ctx, pending, answers):
 
 
 # ==========================================================================================
+# CUSTOM OPERATORS and the registry (`BackendBase.register_operator`, the documented way to add an operator; the test
+# suite registers with `backend.register_operator(grids.UnitGrid, "undefined", make_op)` and removes the entry with
+# `del backend._operators[grids.UnitGrid]["undefined"]`)
+def make_custom_factory(spec):
+    """factory of a custom operator scalar -> scalar on grids with one or two axes.  Every call returns a NEW factory
+    (function object), also for an equal specification.  kinds: `scale` f*c; `nbsum` f*(c[i+1]+c[i-1])+c along the first
+    axis (reads ghost cells: depends on the boundary condition); `diff` f*(c[i+1]-c[i-1]) along the last axis"""
+    kind, f = spec["kind"], float(spec["f"])
+
+    def factory(grid, **kwargs):
+        two = grid.num_axes == 2
+        if grid.num_axes > 2:
+            raise NotImplementedError("custom test operator: at most two axes")
+        if kind == "scale":
+            if two:
+                def op(arr, out):
+                    out[:] = f * arr[1:-1, 1:-1]
+            else:
+                def op(arr, out):
+                    out[:] = f * arr[1:-1]
+        elif kind == "nbsum":
+            if two:
+                def op(arr, out):
+                    out[:] = f * (arr[2:, 1:-1] + arr[:-2, 1:-1]) + arr[1:-1, 1:-1]
+            else:
+                def op(arr, out):
+                    out[:] = f * (arr[2:] + arr[:-2]) + arr[1:-1]
+        elif kind == "diff":
+            if two:
+                def op(arr, out):
+                    out[:] = f * (arr[1:-1, 2:] - arr[1:-1, :-2])
+            else:
+                def op(arr, out):
+                    out[:] = f * (arr[2:] - arr[:-2])
+        else:
+            raise ValueError(kind)
+        return op
+    return factory
+
+
+def backend_class(name):
+    from pde.backends.numba.backend import NumbaBackend
+    from pde.backends.numpy.backend import NumpyBackend
+    from pde.backends.scipy.backend import ScipyBackend
+    return {"numba": NumbaBackend, "numpy": NumpyBackend, "scipy": ScipyBackend}[name]
+
+
+def grid_class(name):
+    import pde
+    from pde.grids.base import GridBase
+    return GridBase if name == "GridBase" else getattr(pde, name)
+
+
+GRID_PARENT = {"UnitGrid": "CartesianGrid", "CartesianGrid": "GridBase", "PolarSymGrid": "GridBase", "SphericalSymGrid": "GridBase",
+               "CylindricalSymGrid": "GridBase"}
+_MISSING = object()
+
+
+def registry_set(env, op):
+    """`register` / `unregister` one slot (backend class, grid class, name); the entry found at the first touch is kept
+    for `registry_restore`"""
+    bcls, gcls, name = backend_class(op["backend"]), grid_class(op["grid_cls"]), op["name"]
+    table = bcls._operators[gcls]
+    env.setdefault("reg_saved", {}).setdefault((bcls, gcls, name), table.get(name, _MISSING))
+    if op["op"] == "unregister":
+        del table[name]  # KeyError if nothing is registered: a setup error of the history
+        return
+    facs = env.setdefault("factories", {})
+    if op["fid"] not in facs:
+        facs[op["fid"]] = make_custom_factory(op["factory"])  # the same fid later in the history: the same function OBJECT
+    bcls.register_operator(gcls, name, facs[op["fid"]], rank_in=0, rank_out=0)
+
+
+def registry_restore(env):
+    """leave the registry as it was found (histories stay independent also where several run in one interpreter)"""
+    for (bcls, gcls, name), orig in env.get("reg_saved", {}).items():
+        if orig is _MISSING:
+            bcls._operators[gcls].pop(name, None)
+        else:
+            bcls._operators[gcls][name] = orig
+    env["reg_saved"] = {}
+
+
+def superseded_registry_ops(ops):
+    """indices of `register`/`unregister` operations that a fresh process does not perform: the fresh process performs
+    only the LAST registration of every slot (nothing at all if the slot's last operation removes the entry)"""
+    last = {}
+    for i, o in enumerate(ops):
+        if o["op"] in ("register", "unregister"):
+            last[(o["backend"], o["grid_cls"], o["name"])] = i
+    skip = set()
+    for i, o in enumerate(ops):
+        if o["op"] in ("register", "unregister"):
+            if last[(o["backend"], o["grid_cls"], o["name"])] != i or o["op"] == "unregister":
+                skip.add(i)
+    return skip
+
+
+def bc_arg(bc):
+    return dec_bc(bc) if isinstance(bc, dict) else bc
+
+
+# ==========================================================================================
 # HISTORIES
-QUERY_OPS = {"make_operator", "ghost_setter", "interpolate", "field_op", "rate", "rhs", "solve", "diffusion", "nobc", "evaluate"}
+QUERY_OPS = {"make_operator", "ghost_setter", "interpolate", "field_op", "rate", "rhs", "solve", "diffusion", "nobc", "evaluate", "backend_op"}
 
 
 def uf_f(c):
@@ -1513,6 +1669,9 @@ def exec_op(env, op):
         env.setdefault("shared", {})[op["name"]] = obj
         env.setdefault("shared_snap", {})[op["name"]] = (op["what"], snapshot(obj))
         return None
+    if k in ("register", "unregister"):
+        registry_set(env, op)
+        return None
     if k == "pde":
         consts = {}
         for name, v in op.get("consts", {}).items():
@@ -1522,28 +1681,41 @@ def exec_op(env, op):
         uf = op.get("user_funcs")
         user_funcs = env["shared"][uf] if isinstance(uf, str) else {n: USER_FUNCS[n] for n in uf} if uf else None
         bc = env["shared"][op["bc_shared"]] if op.get("bc_shared") else dec_bc(op["bc"]) if isinstance(op["bc"], dict) else op["bc"]
-        env["pdes"][op["name"]] = pde.PDE(op["rhs"], bc=bc, consts=consts, user_funcs=user_funcs)
+        bc_ops = {kk: bc_arg(v) for kk, v in op["bc_ops"]} if op.get("bc_ops") is not None else None
+        env["pdes"][op["name"]] = pde.PDE(op["rhs"], bc=bc, bc_ops=bc_ops, consts=consts, user_funcs=user_funcs)
         return None
     # ---- queries ----
     if k == "make_operator":
         grid = env["grids"][op["grid"]]
         info = get_backend("numba").get_operator_info(grid, op["operator"])
         kw = {kk: dec(v) for kk, v in op.get("kwargs", [])}
-        fn = grid.make_operator(op["operator"], dec_bc(op["bc"]), backend=op["backend"], dtype=dec(op.get("dtype", ["none"])), **kw)
+        fn = grid.make_operator(op["operator"], bc_arg(op["bc"]), backend=op["backend"], dtype=dec(op.get("dtype", ["none"])), **kw)
         outs = apply_op(fn, grid, info, op["seed"])
-        if has_normal(op["bc"]) and grid.dim > 1:
+        if isinstance(op["bc"], dict) and has_normal(op["bc"]) and grid.dim > 1:
             # cells that neither the data nor the conditions determine are reported as 0 (judged by the pairs leg: KEY_UNINIT)
             m = defined_mask(grid, info, grid.get_boundary_conditions(dec_bc(op["bc"]), rank=info.rank_in), kw)
             outs = [np.where(m, x, 0.0) for x in outs]
         return [lst(x) for x in outs]
+    if k == "backend_op":
+        # the backend's own (cached) `make_operator`, called directly with the operator NAME (public signature
+        # `make_operator(grid, operator: str | OperatorInfo, *, bcs, ...)`)
+        grid = env["grids"][op["grid"]]
+        backend = get_backend(op["backend"])
+        bcs = grid.get_boundary_conditions(bc_arg(op["bc"]), rank=0)
+        fn = backend.make_operator(grid, op["operator"], bcs=bcs)
+        return [lst(np.array(fn(rnd_data(op["seed"] + j, grid.shape)))) for j in range(2)]
     if k == "nobc":
         grid = env["grids"][op["grid"]]
-        info = get_backend("numba").get_operator_info(grid, op["operator"])
         fn = grid.make_operator_no_bc(op["operator"], backend=op["backend"], **{kk: dec(v) for kk, v in op.get("kwargs", [])})
-        full = rnd_data(op["seed"], (grid.dim,) * info.rank_in + grid._shape_full)
-        if type(grid).__name__ == "SphericalSymGrid" and info.rank_in == 1:
+        try:
+            info = get_backend("numba").get_operator_info(grid, op["operator"])
+            rank_in, rank_out = info.rank_in, info.rank_out
+        except NotImplementedError:
+            rank_in = rank_out = 0  # a name that is not registered (any more), for which the cached method still hands out something
+        full = rnd_data(op["seed"], (grid.dim,) * rank_in + grid._shape_full)
+        if type(grid).__name__ == "SphericalSymGrid" and rank_in == 1:
             full[1:] = 0
-        o = np.zeros((grid.dim,) * info.rank_out + grid.shape)
+        o = np.zeros((grid.dim,) * rank_out + grid.shape)
         fn(full, o)
         return lst(o)
     if k == "ghost_setter":
@@ -1581,7 +1753,7 @@ def exec_op(env, op):
         return out
     if k == "field_op":
         f = env["fields"][op["field"]]
-        return lst(f.apply_operator(op["operator"], bc=dec_bc(op["bc"]), backend=op["backend"]).data)
+        return lst(f.apply_operator(op["operator"], bc=bc_arg(op["bc"]), backend=op["backend"]).data)
     if k == "rate":
         eq = env["pdes"][op["pde"]]
         return lst(eq.evolution_rate(_field(env, op["state"]), op.get("t", 0.0)).data)
@@ -1619,27 +1791,47 @@ def hist_exec(history, fresh):
     ops = history["ops"]
     last = len(ops) - 1
     result = None
-    for i, op in enumerate(ops):
-        is_q = op["op"] in QUERY_OPS
-        if is_q and fresh and i != last:
-            continue
-        if is_q:
-            try:
-                r = exec_op(env, op)
-            except Exception as e:
-                r = "EXC:" + exc_class(e)
-        else:
-            try:
-                r = exec_op(env, op)
-            except Exception as e:
-                return "SETUP-EXC:" + exc_class(e) + ":" + str(e)[:80]
-        if i == last:
-            result = r
+    skip = superseded_registry_ops(ops) if fresh else set()
+    try:
+        for i, op in enumerate(ops):
+            is_q = op["op"] in QUERY_OPS
+            if (is_q and fresh and i != last) or i in skip:
+                continue
+            if is_q:
+                try:
+                    r = exec_op(env, op)
+                except Exception as e:
+                    r = "EXC:" + exc_class(e)
+            else:
+                try:
+                    r = exec_op(env, op)
+                except Exception as e:
+                    return "SETUP-EXC:" + exc_class(e) + ":" + str(e)[:80]
+            if i == last:
+                result = r
+    finally:
+        registry_restore(env)
     mut = mutated_args(env)
     if mut:
         # py-pde wrote into an argument object of the caller: reported together with the result (never equal to a plain result)
         return {"ARG-MUTATED": mut, "result": result}
     return result
+
+
+def warm_third_party():
+    """first-use initialisation of third-party libraries (sympy's parser and code printer, numba's typed dictionary) in the
+    process the fresh children are forked from: it costs 0.5 s per child otherwise and is no state of py-pde (no py-pde call
+    is made; the subset run in really new interpreters validates this shortcut as well)"""
+    try:
+        import sympy
+        from sympy.parsing import sympy_parser
+        x = sympy.Symbol("x")
+        sympy.lambdify([x], sympy_parser.parse_expr("f(x) + 2*x", evaluate=False).subs(sympy.Function("f")(x), x ** 2), modules="numpy")(1.0)
+        from numba.typed import Dict as NumbaDict
+        d = NumbaDict()
+        d["t"] = 0.0
+    except Exception:
+        pass
 
 
 def forked_call(fn, *args):
@@ -1753,6 +1945,7 @@ def hist_worker(history):
     """history in one interpreter vs last call in a fresh one (both forked from this clean process);
     on a difference the history is shrunk (keeping the kind of the failure)"""
     import pde  # noqa: F401  (only imported - nothing of py-pde has been called in this process)
+    warm_third_party()
     full = forked(history, False)
     fresh = forked(history, True)
     cls = hist_class(full, fresh)
@@ -1879,7 +2072,7 @@ def gen_history(rng, hist, jit=False):
         ops.append({"op": "field", "name": f"f{i}", "grid": gi, "rank": 0, "seed": seed()})
         fields.append((f"f{i}", gi))
     theme = rng.choice(["operator", "operator", "ghost", "interp", "interp", "pde", "pde", "pde_const", "solve", "field_op", "nobc", "diffusion",
-                        "pde_coll", "pde_shared", "pde_shared", "pde_grids", "pde_grids"])
+                        "pde_coll", "pde_shared", "pde_shared", "pde_grids", "pde_grids", "rereg", "rereg", "rereg"])
     if theme in ("interp", "pde", "pde_const") and not jit and rng.random() < 0.15:
         ops[0]["complex"] = True  # a complex-valued state/field (the dtype is part of `state.attributes` and of the operator keys)
     hist("history-theme", theme + ("/jit" if jit else ""))
@@ -2135,6 +2328,8 @@ def gen_history(rng, hist, jit=False):
         for _ in range(rng.randint(0, 1)):
             ops.append(filler())
         ops.append(query("f1"))
+    elif theme == "rereg":
+        ops, grids = gen_rereg(rng, hist, jit)
     elif theme == "field_op":
         f, gi = fields[0]
         gd = grids[gi]
@@ -2147,6 +2342,114 @@ def gen_history(rng, hist, jit=False):
         hist("history-variant", v)
         ops.append({"op": "field_op", "field": f, "operator": opn, "bc": bc2, "backend": be})
     return {"grids": grids, "ops": ops}
+
+
+CUSTOM_KINDS = ["scale", "scale", "nbsum", "diff"]
+REREG_SITES = ["field_op", "field_op", "field_op", "make_operator", "make_operator", "nobc", "nobc", "backend_op", "pde_same", "pde_same",
+               "pde_new", "evaluate"]
+
+
+def gen_rereg(rng, hist, jit=False):
+    """a custom operator is registered under a name that is registered AGAIN later in the history with another factory
+    (same slot, a more / less specific slot, after a removal, back to the first factory object), and applied through
+    `field.apply_operator`, `grid.make_operator`, `grid.make_operator_no_bc(name)`, the backend's `make_operator(grid, name)`,
+    a PDE object prepared before / a PDE created after the change, `evaluate` - on the grid object that was queried before
+    the change or on an equal grid object that was never queried"""
+    seed = lambda: rng.randrange(1 << 30)
+    gd0 = gen_grid_small(rng)
+    if jit:
+        while len(gd0["shape"]) > 1:
+            gd0 = gen_grid_small(rng)
+    gd1 = copy.deepcopy(gd0) if rng.random() < 0.75 else related_grid(rng, gd0)
+    if gd1["cls"] != gd0["cls"]:
+        gd1 = copy.deepcopy(gd0)
+    grids = [gd0, gd1]
+    own, parent = gd0["cls"], GRID_PARENT[gd0["cls"]]
+    sd = seed()
+    ops = [{"op": "field", "name": "f0", "grid": 0, "rank": 0, "seed": sd}, {"op": "field", "name": "f1", "grid": 1, "rank": 0, "seed": sd}]
+    builtin = rng.random() < 0.2
+    name = "laplace" if builtin else rng.choice(["cop", "cop", "my_op"])
+    # the slot: (backend class, grid class).  A built-in name is shadowed at the grid's own class if that holds no built-in
+    # (UnitGrid: the built-in operators are registered for CartesianGrid), otherwise its own entry is overwritten
+    if builtin:
+        slot_a = {"backend": "numba", "grid_cls": own}
+        can_remove = own == "UnitGrid"
+    else:
+        slot_a = {"backend": rng.choice(["numba", "numba", "numpy"]), "grid_cls": rng.choice([own, own, parent])}
+        can_remove = True
+    fs = rng.sample([2.0, 3.0, -1.0, 0.5, -2.0, 1.5, 4.0], 3)
+    kinds = [rng.choice(CUSTOM_KINDS) for _ in range(3)]
+    if rng.random() < 0.5:
+        kinds = [kinds[0]] * 3
+    fac = lambda j: {"kind": kinds[j], "f": fs[j]}
+    reg = lambda slot, j, fid: dict({"op": "register", "name": name, "factory": fac(j), "fid": fid}, **slot)
+    bc = gen_bc(rng, gd0, 0) if rng.random() < 0.6 else "auto_periodic_neumann"
+    be = "numba"
+    pde_made = []
+
+    def query(site, gi):
+        f = f"f{gi}"
+        if site == "field_op":
+            return [{"op": "field_op", "field": f, "operator": name, "bc": bc, "backend": be}]
+        if site == "make_operator":
+            return [{"op": "make_operator", "grid": gi, "operator": name, "bc": bc, "backend": be, "seed": sd}]
+        if site == "nobc":
+            return [{"op": "nobc", "grid": gi, "operator": name, "backend": be, "kwargs": [], "seed": sd}]
+        if site == "backend_op":
+            return [{"op": "backend_op", "grid": gi, "operator": name, "bc": bc, "backend": be, "seed": sd}]
+        if site == "evaluate":
+            return [{"op": "evaluate", "expr": f"{name}(c) + c", "state": f, "bc": bc, "backend": rng.choice(["numpy", "numba"])}]
+        out = []
+        if site == "pde_new" or "p0" not in pde_made:
+            pname = "p0" if "p0" not in pde_made else f"p{len(pde_made)}"
+            out.append({"op": "pde", "name": pname, "rhs": {"c": f"{name}(c) - c"}, "bc": bc, "consts": {}})
+            pde_made.append(pname)
+        else:
+            pname = "p0"
+        r = rng.random()
+        if r < 0.15 and not jit:
+            out.append({"op": "solve", "pde": pname, "state": f, "t_range": 0.02, "dt": 0.01, "backend": pde_be[0], "solver": "euler"})
+        elif r < 0.6 or pde_be[0] == "numpy":
+            out.append({"op": "rate", "pde": pname, "state": f})
+        else:
+            out.append({"op": "rhs", "pde": pname, "state": f, "backend": pde_be[0]})
+        return out
+    pde_be = [rng.choice(["numpy", "numba"])]
+    last_site = rng.choice(REREG_SITES)
+    last_gi = 0 if rng.random() < 0.7 else 1
+    ops.append(reg(slot_a, 0, 1))
+    # queries before the change: mostly the site of the last query on grid object 0 (so that its cache is warm)
+    pre = [last_site if rng.random() < 0.8 else rng.choice(REREG_SITES)] + [rng.choice(REREG_SITES) for _ in range(rng.choice([0, 0, 1, 2]))]
+    for site in pre:
+        ops += query(site, 0 if rng.random() < 0.85 else 1)
+    # the change
+    r = rng.random()
+    other_slot = None
+    if not builtin:
+        cands = [{"backend": b, "grid_cls": g} for b in ("numba", "numpy") for g in (own, parent)]
+        cands = [c for c in cands if c != slot_a]
+        other_slot = rng.choice(cands)
+    if r < 0.55 or (builtin and not can_remove and r < 0.9):
+        change, what = [reg(slot_a, 1, 2)], "same-slot"
+    elif r < 0.7 and other_slot:
+        change, what = [reg(other_slot, 1, 2)], "other-slot"
+    elif r < 0.8 and can_remove:
+        change, what = [dict({"op": "unregister", "name": name}, **slot_a)], "removed"
+    elif r < 0.9:
+        change, what = [reg(slot_a, 1, 2), reg(slot_a, 0, 1)], "back-to-first-object"
+    else:
+        change, what = [reg(slot_a, 0, 3)], "equal-spec-new-object"
+    hist("rereg-change", what + ("/builtin-name" if builtin else ""))
+    ops += change
+    if rng.random() < 0.2:
+        ops += query(rng.choice(REREG_SITES), rng.choice([0, 1]))
+        ops.append(reg(slot_a, 2, 4))
+    if rng.random() < 0.3 and not jit:
+        ops.append({"op": "write", "field": f"f{last_gi}", "seed": seed()})
+    q = query(last_site, last_gi)
+    ops += q
+    hist("rereg-last-site", last_site + (":queried-object" if last_gi == 0 else ":other-object"))
+    return ops, grids
 
 
 # ==========================================================================================
@@ -2334,6 +2637,576 @@ def judge_heapdep_jit(ctx, cases, results):
                              f"req (compiled): {key['symptom']}", key=key)
 
 
+# ==========================================================================================
+# REGISTRY: histories of registrations and queries with an operator name against the registry machine `regRun`
+REG_SITES = ["field_op", "field_op", "grid_op", "nobc_name", "nobc_name", "backend_op_name", "backend_nobc_name", "pde_same", "pde_same", "pde_new", "evaluate"]
+# call sites whose cache key contains only the NAME on the unchanged tree (finding I; `byInfo` once repaired)
+REG_OPEN_SITES = {"nobc_name": KEY_REREG_NOBC, "backend_op_name": KEY_REREG_BACKEND, "pde_same": KEY_REREG_PDE}
+REG_CALL_SITE = {"field_op": "DataFieldBase.apply_operator", "grid_op": "GridBase.make_operator", "nobc_name": "GridBase.make_operator_no_bc",
+                 "backend_op_name": "NumbaBackend.make_operator", "backend_nobc_name": "BackendBase.make_operator_no_bc",
+                 "pde_same": "PDE._prepare_cache", "pde_new": "PDE._prepare_cache", "evaluate": "evaluate"}
+REG_NAMES = ["cop", "cop2"]
+
+
+def registry_slots(gd):
+    own, parent = gd["cls"], GRID_PARENT[gd["cls"]]
+    return [["numba", own], ["numba", parent], ["numpy", own], ["numpy", parent]]
+
+
+def gen_registry_case(rng, hist):
+    gd = gen_grid_small(rng)
+    slots = registry_slots(gd)
+    names = REG_NAMES[:rng.choice([1, 1, 1, 2])]
+    focus = rng.sample(sorted(set(REG_SITES)), rng.choice([1, 2, 2, 3]))  # the sites most queries of this history go through
+    main_slot = rng.choice([0, 0, 0, 1, 2, 3])
+    events, live, used = [], set(), []
+    nfid = itertools.count(1)
+    for _ in range(rng.randint(4, 12)):
+        r = rng.random()
+        if r < 0.3 or not live:
+            si = main_slot if rng.random() < 0.7 else rng.choice([0, 1, 2, 3])
+            name = rng.choice(names)
+            fid = rng.choice(used) if used and rng.random() < 0.12 else next(nfid)  # sometimes an earlier factory OBJECT again
+            used.append(fid)
+            events.append(["register", si, name, fid])
+            live.add((si, name))
+        elif r < 0.38:
+            si, name = rng.choice(sorted(live))
+            events.append(["unregister", si, name])
+            live.discard((si, name))
+        else:
+            events.append(["query", rng.choice(focus) if rng.random() < 0.75 else rng.choice(REG_SITES), rng.choice([0, 0, 0, 1]), rng.choice(names)])
+    for e in events:
+        hist("registry-event", e[0] + (":" + e[1] if e[0] == "query" else ""))
+    return {"kind": "registry", "grid": gd, "events": events}
+
+
+def fixed_registry_cases():
+    """the first three decide, per call site of finding I, which derivation the code implements (name only / resolved
+    registration); the others are the seeded change C04-3 and the shadowing order of the slots"""
+    g = {"cls": "UnitGrid", "shape": [4], "bounds": [[0.0, 4.0]], "periodic": [False]}
+    out = [{"kind": "registry", "grid": g, "events": [["register", 0, "cop", 1], ["query", site, 0, "cop"], ["register", 0, "cop", 2], ["query", site, 0, "cop"]]}
+           for site in REG_OPEN_SITES]
+    out.append({"kind": "registry", "grid": g, "events": [["register", 0, "cop", 1], ["query", "field_op", 0, "cop"], ["register", 0, "cop", 2],
+                                                          ["query", "field_op", 0, "cop"], ["query", "field_op", 1, "cop"], ["query", "grid_op", 0, "cop"]]})
+    out.append({"kind": "registry", "grid": g, "events": [["register", 3, "cop", 1], ["query", "field_op", 0, "cop"], ["register", 0, "cop", 2], ["query", "field_op", 0, "cop"],
+                                                          ["unregister", 0, "cop"], ["query", "field_op", 0, "cop"], ["unregister", 3, "cop"], ["query", "field_op", 0, "cop"]]})
+    return out
+
+
+def real_registry(case):
+    """performs the events on the real registry / call sites; every query is answered by the factory id whose
+    implementation was applied (factory `fid` multiplies by fid + 1), None for NotImplementedError"""
+    import pde
+    from pde import get_backend
+    from pde.tools.expressions import evaluate
+    quiet()
+    for b in ("numba", "numpy", "scipy"):
+        get_backend(b).__dict__.pop("_cache_methods", None)  # cases stay independent within one worker process
+    nb = get_backend("numba")
+    slots = registry_slots(case["grid"])
+    grids = [make_grid(case["grid"]), make_grid(case["grid"])]
+    d = (np.arange(int(np.prod(grids[0].shape)), dtype=float) + 1.0).reshape(grids[0].shape)
+    fields = [pde.ScalarField(g, d) for g in grids]
+    bc = "auto_periodic_neumann"
+    pdes, env, answers = {}, {}, []
+
+    def query(site, obj, name):
+        g, f = grids[obj], fields[obj]
+        if site == "field_op":
+            return f.apply_operator(name, bc=bc, backend="numba").data
+        if site == "grid_op":
+            return g.make_operator(name, bc, backend="numba")(d)
+        if site == "nobc_name":
+            o = np.zeros(g.shape)
+            g.make_operator_no_bc(name, backend="numba")(f._data_full, o)
+            return o
+        if site == "backend_op_name":
+            return nb.make_operator(g, name, bcs=g.get_boundary_conditions(bc))(d)
+        if site == "backend_nobc_name":
+            o = np.zeros(g.shape)
+            nb.make_operator_no_bc(g, name)(f._data_full, o)
+            return o
+        if site == "pde_same":
+            if (name, obj) not in pdes:
+                pdes[(name, obj)] = pde.PDE({"c": f"{name}(c)"})
+            return pdes[(name, obj)].evolution_rate(f).data
+        if site == "pde_new":
+            return pde.PDE({"c": f"{name}(c)"}).evolution_rate(f).data
+        if site == "evaluate":
+            return evaluate(f"{name}(c)", {"c": f}).data
+        raise ValueError(site)
+    try:
+        for e in case["events"]:
+            if e[0] == "register":
+                registry_set(env, {"op": "register", "backend": slots[e[1]][0], "grid_cls": slots[e[1]][1], "name": e[2],
+                                   "factory": {"kind": "scale", "f": float(e[3] + 1)}, "fid": e[3]})
+            elif e[0] == "unregister":
+                registry_set(env, {"op": "unregister", "backend": slots[e[1]][0], "grid_cls": slots[e[1]][1], "name": e[2]})
+            else:
+                try:
+                    r = np.asarray(query(e[1], e[2], e[3]), dtype=float)
+                    fac = float(r.flat[0] / d.flat[0])
+                    if r.shape == d.shape and abs(fac - round(fac)) <= 1e-9 and arr_close(r, round(fac) * d):
+                        answers.append(int(round(fac)) - 1)
+                    else:
+                        answers.append("GARBAGE:" + json.dumps(lst(r))[:200])
+                except NotImplementedError:
+                    answers.append(None)
+                except Exception as ex:
+                    answers.append("EXC:" + exc_class(ex))
+    finally:
+        registry_restore(env)
+    return {"answers": answers}
+
+
+def registry_worker(case):
+    return real_registry(case)
+
+
+def registry_worker_forked(case):
+    import pde  # noqa: F401
+    return forked_call(real_registry, case)
+
+
+def registry_model_events(case):
+    """events for `c04.replay_registry`.  level: position of the slot in the walk of `get_operator_info` for the numba
+    backend and the grid's class (backend classes outer loop, grid classes inner loop: numba/own < numba/parent < numpy/own
+    < numpy/parent, which is the order of `registry_slots`); cache / rest: which cache object a query consults and with
+    what other arguments"""
+    uniq = itertools.count(1000)
+    out = []
+    for e in case["events"]:
+        if e[0] == "register":
+            out.append(["register", e[1], e[2], e[3]])
+        elif e[0] == "unregister":
+            out.append(["unregister", e[1], e[2]])
+        else:
+            site, obj, name = e[1], e[2], e[3]
+            cache, rest = {"field_op": (obj, 0), "nobc_name": (obj, 1), "grid_op": (10, 2), "backend_op_name": (10, 3),
+                           "backend_nobc_name": (None, 4), "pde_new": (None, 5), "evaluate": (None, 6), "pde_same": (20 + obj, 7)}[site]
+            out.append(["query", next(uniq) if cache is None else cache, name, rest])
+    return out
+
+
+def pend_registry(ctx, batch, cases, res):
+    pend = []
+    for c, r in zip(cases, res):
+        if isinstance(r, str):
+            ctx.count(c, nontrivial=False, leg="registry:died")
+            died(ctx, "registry", c, r, "registry")
+            continue
+        pend.append((c, r, batch.add("c04.replay_registry", {"events": registry_model_events(c)})))
+    return pend
+
+
+def judge_registry(ctx, pend, answers):
+    """tie: every answer equals the registry machine under the derivation of its call site - `byInfo` (the resolved
+    registration is part of the key) everywhere, except at the three call sites of finding I, where the code as it is keys
+    by the name only: which derivation these implement is read off the fixed histories [register, query, register, query]
+    at the head of the run and then required for ALL histories.  monitor: every answer is the factory registered now."""
+    deriv = {}
+    for c, r, i in pend[:len(REG_OPEN_SITES)]:
+        st, val = answers[i]
+        ev = c["events"]
+        if st == "ok" and len(ev) == 4 and ev[1][0] == "query" and ev[1][1] in REG_OPEN_SITES and ev[1][1] not in deriv:
+            deriv[ev[1][1]] = "byName" if r["answers"] == val["byName"] and r["answers"] != val["byInfo"] else "byInfo"
+            ctx.hist("registry-derivation", f"{ev[1][1]}: " + ("name only (finding I open)" if deriv[ev[1][1]] == "byName" else "resolved registration"))
+    for c, r, i in pend:
+        ev = c["events"]
+        queries = [(j, e) for j, e in enumerate(ev) if e[0] == "query"]
+        changes = [j for j, e in enumerate(ev) if e[0] != "query"]
+        ctx.count(c, nontrivial=len(changes) >= 2 and any(j > changes[1] for j, _ in queries), leg="registry")
+        ctx.impl_traces += 1
+        st, val = answers[i]
+        if st != "ok":
+            ctx.disagree("registry", c, f"model error {val}", r["answers"])
+            continue
+        first_bad = None
+        for q, ((j, e), obs) in enumerate(zip(queries, r["answers"])):
+            site = e[1]
+            d = deriv.get(site, "byInfo")
+            if obs != val[d][q]:
+                ctx.disagree("registry", dict(c, events=ev[:j + 1]), {"model_answer": val[d][q], "derivation": d, "site": site}, {"real_answer": obs},
+                             "factory whose implementation a query with an operator name returns")
+            ctx.monitor_evals += 1
+            if obs != val["ref"][q] and first_bad is None:
+                first_bad = (j, site, obs, val["ref"][q])
+        if first_bad is not None:
+            j, site, obs, ref = first_bad
+            key = REG_OPEN_SITES.get(site) or {"call_site": REG_CALL_SITE[site], "argument": "operator given by name", "symptom": REREG_SYMPTOM}
+            ctx.monitor_fail("registry", dict(c, events=ev[:j + 1]), {"symptom": "registry", "factory_applied": obs, "site": site},
+                             {"factory_registered_now": ref}, f"registry: {key['call_site']}: {key['symptom']}", key=key)
+
+
+# ==========================================================================================
+# PDEVARS: PDEs with two or three variables that use the same operator name with per-variable conditions (`bc_ops`)
+PDEVARS_NAMES = ["u", "v", "w", "a", "b", "psi"]
+PDEVARS_QUERIES = ["rate", "rate", "rhs:numba", "rhs:numba", "rhs:numpy", "solve:numpy", "solve:numba"]
+PDEVARS_REF_QUERY = "rate"  # the reference of every kind of query: `evolution_rate` of the single-variable PDE in a fresh process
+
+
+def gen_pdevars_bc(rng, gd, kinds):
+    """per-side conditions of the given kind per non-periodic axis side (value / derivative / mixed / curvature)"""
+    spec = {}
+    for ax, name in enumerate(axes_of(gd)):
+        if gd["periodic"][ax]:
+            spec[name] = "periodic"
+            continue
+        for sd in "-+":
+            kind = rng.choice(kinds)
+            s_ = {"type": kind, "value": gen_number(rng) if rng.random() < 0.6 else ["i", 0]}
+            if kind == "mixed":
+                s_["value"] = ["f", abs(float(dec(s_["value"])))]
+                s_["const"] = gen_number(rng)
+            spec[name + sd] = s_
+    return spec
+
+
+def gen_pdevars(rng, hist, jit=False):
+    """a configuration: grid, 2-3 variables whose equations all use one operator name (some a second one), for every
+    variable its own condition of another kind, given as `VAR:OP` / `VAR:*` / the default `bc`; optional algebraic coupling"""
+    for _ in range(100):
+        gd = gen_grid_small(rng)
+        if not all(gd["periodic"]) and (not jit or len(gd["shape"]) == 1):
+            break
+    nv = 2 if jit else rng.choice([2, 2, 3])
+    names = rng.sample(PDEVARS_NAMES, nv)
+    cart = gd["cls"] in ("UnitGrid", "CartesianGrid")
+    main = rng.choice(["laplace", "laplace", "laplace", "gradient_squared"] + (["d2_dx2"] if cart else []))
+    second = rng.choice([o for o in ("laplace", "gradient_squared") if o != main])
+    base_kinds = rng.sample(["value", "derivative", "mixed", "curvature"], 4)
+    default_user = rng.randrange(nv) if rng.random() < 0.2 else None  # this variable has no entry of its own: the default `bc`
+    vars_, bc_ops = [], []
+    default_bc = "auto_periodic_neumann"
+    for i, v in enumerate(names):
+        kinds = [base_kinds[i]] if rng.random() < 0.7 else [base_kinds[i], base_kinds[(i + 1) % 4]]
+        bc = gen_pdevars_bc(rng, gd, kinds)
+        a, b = rng.choice([1, 1, 2, -1, 0.5]), rng.choice([0, 0, 1, -0.5])
+        expr = f"{a} * {main}({v})" if a != 1 else f"{main}({v})"
+        ops_used = [main]
+        if b:
+            expr += f" + {b} * {v}"
+        if rng.random() < 0.3:
+            expr += f" + {second}({v})"
+            ops_used.append(second)
+        coupled = None
+        if nv > 1 and rng.random() < 0.3:
+            coupled = rng.choice([w for w in names if w != v])
+            expr += f" - 0.5 * {coupled}"
+        if i == default_user:
+            default_bc = bc
+        else:
+            form = rng.choice(["op", "op", "op", "star"]) if len(ops_used) == 1 else rng.choice(["op", "star", "both"])
+            if form == "op":
+                bc_ops.append([f"{v}:{main}", bc])
+            elif form == "star":
+                bc_ops.append([f"{v}:*", bc])
+            else:
+                bc_ops.append([f"{v}:{main}", bc])
+                bc_ops.append([f"{v}:{second}", gen_pdevars_bc(rng, gd, [rng.choice(base_kinds)])])
+        vars_.append({"name": v, "expr": expr, "coupled": coupled, "seed": rng.randrange(1 << 30)})
+    rng.shuffle(bc_ops)
+    hist("pdevars:operator", main + ("+" + second if any(second + "(" in v["expr"] for v in vars_) else ""))
+    hist("pdevars:variables", f"{nv}" + ("/default-bc-user" if default_user is not None else "") + ("/coupled" if any(v["coupled"] for v in vars_) else ""))
+    for _, bc in bc_ops:
+        for sd in bc.values():
+            hist("pdevars:bc-class", sd if isinstance(sd, str) else sd["type"])
+    orders = [list(p) for p in itertools.permutations(range(nv))]
+    runs = []
+    for order in orders:
+        q = rng.choice(PDEVARS_QUERIES) if not jit else rng.choice(["rhs:numba", "rhs:numba", "rate"])
+        pre = []
+        r = rng.random()
+        if r < 0.2:
+            pre = [["single", rng.randrange(nv)]]  # the single-variable PDE of one variable is asked first in the same process
+        elif r < 0.35:
+            pre = [["multi", rng.choice(orders)]]  # the PDE in another order is asked first
+        runs.append({"order": order, "query": q, "pre": pre})
+        hist("pdevars:query", q + ("/after-" + pre[0][0] if pre else ""))
+    if jit:
+        runs = [rng.choice(runs)]
+        runs[0]["pre"] = []
+    return {"kind": "pdevars", "grid": gd, "vars": vars_, "bc": default_bc, "bc_ops": bc_ops, "runs": runs, "jit": bool(jit)}
+
+
+def fixed_pdevars(jit=False):
+    """seeded change C04-4: u with value 0, v with derivative 0, the same data scale, both orders; and three variables"""
+    g6 = {"cls": "UnitGrid", "shape": [6], "bounds": [[0.0, 6.0]], "periodic": [False]}
+    v0 = {"x-": {"type": "value", "value": ["i", 0]}, "x+": {"type": "value", "value": ["i", 0]}}
+    d0 = {"x-": {"type": "derivative", "value": ["i", 0]}, "x+": {"type": "derivative", "value": ["i", 0]}}
+    m1 = {"x-": {"type": "mixed", "value": ["f", 1.0], "const": ["i", 0]}, "x+": {"type": "mixed", "value": ["f", 1.0], "const": ["i", 0]}}
+    var = lambda n, sd: {"name": n, "expr": f"laplace({n})", "coupled": None, "seed": sd}
+    two = {"kind": "pdevars", "grid": g6, "vars": [var("u", 11), var("v", 12)], "bc": "auto_periodic_neumann",
+           "bc_ops": [["u:laplace", v0], ["v:laplace", d0]], "jit": bool(jit),
+           "runs": [{"order": [0, 1], "query": "rhs:numba" if jit else "rate", "pre": []}] + ([] if jit else [
+               {"order": [1, 0], "query": "rate", "pre": []}, {"order": [0, 1], "query": "rhs:numba", "pre": []},
+               {"order": [1, 0], "query": "solve:numpy", "pre": []}])}
+    if jit:
+        return [two]
+    three = {"kind": "pdevars", "grid": g6, "vars": [var("u", 11), var("v", 12), var("w", 13)], "bc": m1,
+             "bc_ops": [["u:laplace", v0], ["v:*", d0]], "jit": False,
+             "runs": [{"order": list(p), "query": "rate", "pre": []} for p in itertools.permutations(range(3))]}
+    return [two, three]
+
+
+def _pdevars_bc_ops(case, only=None):
+    """`bc_ops` as given (dictionary order kept); `only`: the entries that can apply to this variable"""
+    return {k: bc_arg(bc) for k, bc in case["bc_ops"] if only is None or k.split(":")[0] in (only, "*")}
+
+
+def _pdevars_data(case, grid):
+    return [rnd_data(v["seed"], grid.shape) for v in case["vars"]]
+
+
+def _pdevars_query(eq, state, q):
+    """evolution rate of `state` through the requested entry point; always returned as the rate (solve: one explicit Euler
+    step, the rate is recovered from the increment)"""
+    kind, _, backend = q.partition(":")
+    if kind == "rate":
+        return np.array(eq.evolution_rate(state).data)
+    if kind == "rhs":
+        return np.array(eq.make_pde_rhs(state, backend=backend)(state.data.copy(), 0.0))
+    if kind == "solve":
+        dt = 0.0009765625
+        res = eq.solve(state, t_range=dt, dt=dt, tracker=None, backend=backend, solver="euler")
+        return (np.array(res.data) - np.array(state.data)) / dt
+    raise ValueError(q)
+
+
+def pdevars_multi(case, run):
+    """the PDE with all variables in the order of `run` (after the `pre` requests in the same process): rate of every
+    variable (indexed as in case['vars']), the keys of `PDE.bcs`, the operators per variable, `bcs_used`"""
+    import pde
+    quiet()
+    grid = make_grid(case["grid"])
+    data = _pdevars_data(case, grid)
+    names = [v["name"] for v in case["vars"]]
+
+    def build(order):
+        eq = pde.PDE({names[i]: case["vars"][i]["expr"] for i in order}, bc=bc_arg(case["bc"]), bc_ops=_pdevars_bc_ops(case))
+        state = pde.FieldCollection([pde.ScalarField(grid, data[i], label=names[i]) for i in order])
+        return eq, state
+    for kind, arg in run["pre"]:
+        try:
+            if kind == "single":
+                pdevars_single(case, arg, "rate", grid=grid)
+            else:
+                eq, state = build(arg)
+                eq.evolution_rate(state)
+        except Exception:
+            pass
+    eq, state = build(run["order"])
+    out = {}
+    try:
+        r = _pdevars_query(eq, state, run["query"])
+        out["rates"] = {str(i): lst(r[k]) for k, i in enumerate(run["order"])}
+    except Exception as e:
+        out["error"] = exc_class(e) + ":" + str(e)[:200]
+    out["bcs_keys"] = list(eq.bcs.keys())
+    out["var_ops"] = [[names[i], sorted(eq._operators[names[i]])] for i in run["order"]]
+    out["ops_iter"] = [[names[i], list(eq._operators[names[i]])] for i in run["order"]]
+    out["bcs_used"] = sorted(eq.diagnostics["pde"].get("bcs_used", []))
+    return out
+
+
+def pdevars_single(case, i, q, grid=None, assign=None):
+    """the single-variable PDE of variable i: its own equation, the other variables it refers to given as constant fields,
+    `bc` and the entries of `bc_ops` that can apply to it.  `assign` (diagnosis only): {operator: key of the `bc_ops` entry
+    to build it with} instead of the PDE's own selection"""
+    import pde
+    quiet()
+    grid = grid or make_grid(case["grid"])
+    data = _pdevars_data(case, grid)
+    v = case["vars"][i]
+    names = [w["name"] for w in case["vars"]]
+    consts = {w: pde.ScalarField(grid, data[names.index(w)]) for w in names if w != v["name"] and w == v["coupled"]}
+    if assign is None:
+        bc_ops = _pdevars_bc_ops(case, only=v["name"])
+    else:
+        table = dict((k, bc) for k, bc in case["bc_ops"])
+        bc_ops = {f"{v['name']}:{o}": bc_arg(table[k]) if k != "*:*" else bc_arg(case["bc"]) for o, k in assign.items()}
+    eq = pde.PDE({v["name"]: v["expr"]}, bc=bc_arg(case["bc"]), bc_ops=bc_ops, consts=consts)
+    return lst(_pdevars_query(eq, pde.ScalarField(grid, data[i], label=v["name"]), q))
+
+
+def _pdevars_single_safe(case, i, q, assign=None):
+    try:
+        return pdevars_single(case, i, q, assign=assign)
+    except Exception as e:
+        return "EXC:" + exc_class(e) + ":" + str(e)[:200]
+
+
+def pdevars_eval(case):
+    """every run of the configuration in its own fresh process (forked from one that only imported pde); the reference
+    of every (variable, kind of query) in its own fresh process"""
+    runs = [forked_call(pdevars_multi, case, run) for run in case["runs"]]
+    refs = {}
+    for run in case["runs"]:
+        for i in run["order"]:
+            if (i, PDEVARS_REF_QUERY) not in refs:
+                refs[(i, PDEVARS_REF_QUERY)] = forked_call(_pdevars_single_safe, case, i, PDEVARS_REF_QUERY)
+    bad = []
+    for k, (run, res) in enumerate(zip(case["runs"], runs)):
+        if isinstance(res, str) or "rates" not in res:
+            continue
+        for i in run["order"]:
+            ref = refs[(i, PDEVARS_REF_QUERY)]
+            if isinstance(ref, str) or not same_result(res["rates"][str(i)], ref):
+                bad.append([k, i])
+    return runs, refs, bad
+
+
+def pdevars_worker(case):
+    """evaluates a configuration; on a difference the configuration is shrunk (one run, no earlier requests, fewer
+    variables) while some variable's rate still differs from its single-variable PDE"""
+    import pde  # noqa: F401
+    warm_third_party()
+    runs, refs, bad = pdevars_eval(case)
+    out = {"runs": runs, "refs": [[i, q, r] for (i, q), r in refs.items()], "bad": bad}
+    if bad:
+        cur = dict(copy.deepcopy(case), runs=[copy.deepcopy(case["runs"][bad[0][0]])])
+        cands = lambda c: ([dict(copy.deepcopy(c), runs=[dict(c["runs"][0], pre=[])])] if c["runs"][0]["pre"] else []) + \
+            [drop_pdevar(c, j) for j in range(len(c["vars"])) if len(c["vars"]) > 2]
+        budget, changed = 8, True
+        while changed and budget > 0:
+            changed = False
+            for cand in cands(cur):
+                budget -= 1
+                if cand is not None and pdevars_eval(cand)[2]:
+                    cur, changed = cand, True
+                    break
+        r2, f2, b2 = pdevars_eval(cur)
+        out["shrunk"] = {"case": cur, "runs": r2, "refs": [[i, q, r] for (i, q), r in f2.items()], "bad": b2}
+    return out
+
+
+def pdevars_replay_worker(case):
+    import pde  # noqa: F401
+    warm_third_party()
+    runs, refs, bad = pdevars_eval(case)
+    return {"runs": runs, "refs": [[i, q, r] for (i, q), r in refs.items()], "bad": bad}
+
+
+def drop_pdevar(case, j):
+    """the configuration without variable j (None if another variable refers to it)"""
+    name = case["vars"][j]["name"]
+    if any(v["coupled"] == name for k, v in enumerate(case["vars"]) if k != j):
+        return None
+    c = copy.deepcopy(case)
+    del c["vars"][j]
+    c["bc_ops"] = [[k, bc] for k, bc in c["bc_ops"] if k.split(":")[0] != name]
+    ren = lambda i: i - 1 if i > j else i
+    run = c["runs"][0]
+    run["order"] = [ren(i) for i in run["order"] if i != j]
+    run["pre"] = [[k, (ren(a) if k == "single" else [ren(i) for i in a if i != j])] for k, a in run["pre"] if not (k == "single" and a == j)]
+    return c
+
+
+def pdevars_diagnose(item):
+    """rate of one variable when every operator is built with the `bc_ops` entry the model assigns under the table keyed by
+    the operator only (which entry explains the observed rate)"""
+    import pde  # noqa: F401
+    case, i, q, assign = item
+    return forked_call(_pdevars_single_safe, case, i, q, assign)
+
+
+def pdevars_model_request(case, run, res):
+    names = [v["name"] for v in case["vars"]]
+    return {"vars": [{"name": n, "ops": ops} for n, ops in res["ops_iter"]], "bcs": [k.split(":") for k in res["bcs_keys"]]}
+
+
+def clean_worker(item):
+    """histories and multi-variable PDEs share one pool of interpreters that only import pde and fork"""
+    return pdevars_worker(item) if item.get("kind") == "pdevars" else hist_worker(item)
+
+
+def pdevars_pending(ctx, batch, cases, res, leg):
+    """model requests (`c04.pde_table`, fed with the keys of the real `PDE.bcs` and the real operator sets): one per run
+    of every configuration, one for the run of a shrunk configuration"""
+    pend = []
+    for c, r in zip(cases, res):
+        if isinstance(r, str):
+            ctx.count(c, nontrivial=False, leg=leg + ":worker-exception")
+            died(ctx, leg, c, r, "PDE")
+            continue
+        add = lambda cc, rr: [None if isinstance(out, str) else batch.add("c04.pde_table", pdevars_model_request(cc, run, out))
+                              for run, out in zip(cc["runs"], rr["runs"])]
+        pend.append((c, r, add(c, r), add(r["shrunk"]["case"], r["shrunk"]) if "shrunk" in r else None, leg))
+    return pend
+
+
+def judge_pdevars(ctx, pend, answers):
+    """tie: the entries of `PDE.bcs` the real PDE built operators with (`diagnostics['pde']['bcs_used']`) = `bcsUsed` of the
+    table keyed by (variable, operator).  monitor: the rate of EVERY variable = its single-variable PDE in a fresh process.
+    A failing configuration is reported in its shrunk form, with the diagnosis whether the observed rate is the one the
+    table keyed by the operator only produces."""
+    fails, diag_items = [], []
+
+    def model_of(idx):
+        if idx is None:
+            return None
+        st, val = answers[idx]
+        return val if st == "ok" else None
+
+    def failures(c, r, idxs, leg):
+        out_ = []
+        for k, (run, out) in enumerate(zip(c["runs"], r["runs"])):
+            if isinstance(out, str) or "rates" not in out:
+                continue
+            refs = {(i, q): x for i, q, x in r["refs"]}
+            names = [v["name"] for v in c["vars"]]
+            for i in run["order"]:
+                ref = refs[(i, PDEVARS_REF_QUERY)]
+                if isinstance(ref, str) or not same_result(out["rates"][str(i)], ref):
+                    one = dict(c, runs=[run], variable=names[i])
+                    mf = {"leg": leg, "case": one, "expected": {"single_variable_pde_in_fresh_process": ref},
+                          "observed": {"symptom": "pdevars", "variable": names[i], "rate_in_multi_variable_pde": out["rates"][str(i)], "bcs_used": out["bcs_used"]}}
+                    m = model_of(idxs[k])
+                    assign = {o: out["bcs_keys"][j] for v, o, j in m["shared"]["served"] if v == names[i] and j is not None} if m else None
+                    out_.append((mf, (dict(c, runs=[run]), i, PDEVARS_REF_QUERY, assign) if assign else None))
+        return out_
+
+    for c, r, idxs, idxs_shrunk, leg in pend:
+        differ = len({json.dumps(bc, sort_keys=True) for _, bc in c["bc_ops"]} | {json.dumps(c["bc"], sort_keys=True)}) > 1
+        for k, (run, out) in enumerate(zip(c["runs"], r["runs"])):
+            one = dict(c, runs=[run])
+            ctx.count(one, nontrivial=bool(differ and not isinstance(out, str) and "rates" in out), leg=leg)
+            if isinstance(out, str):
+                died(ctx, leg, one, out if out.startswith("CRASH") else "EXC: " + out, "PDE")
+                continue
+            ctx.impl_traces += 1
+            if "rates" not in out:
+                ctx.hist("malformed", "pdevars:" + out.get("error", "?")[:40])
+                continue
+            ctx.monitor_evals += len(run["order"])
+            if idxs[k] is not None and answers[idxs[k]][0] != "ok":
+                ctx.disagree("pdevars", one, f"model error {answers[idxs[k]][1]}", out["bcs_used"])
+            m = model_of(idxs[k])
+            if m is not None:
+                used_model = sorted(out["bcs_keys"][j] for j in m["perVar"]["used"])
+                if used_model != out["bcs_used"]:
+                    shared = sorted(out["bcs_keys"][j] for j in m["shared"]["used"])
+                    ctx.disagree("pdevars", one, {"bcs_used_model_per_variable_table": used_model},
+                                 {"bcs_used_real": out["bcs_used"], "equals_table_keyed_by_operator_only": shared == out["bcs_used"]},
+                                 "boundary entries used to build the operators of a multi-variable PDE")
+        fl = failures(c, r, idxs, leg)
+        if fl and "shrunk" in r:
+            fs = failures(r["shrunk"]["case"], r["shrunk"], idxs_shrunk, leg)
+            fl = fs[:1] or fl
+        for mf, d in fl:
+            fails.append(mf)
+            if d is not None:
+                diag_items.append((mf, d))
+    if diag_items:
+        dres = run_many("harness.c04", "pdevars_diagnose", [d for _, d in diag_items], env={"NUMBA_DISABLE_JIT": "1"}, procs=16)
+        for (mf, d), x in zip(diag_items, dres):
+            if not isinstance(x, str) and same_result(x, mf["observed"]["rate_in_multi_variable_pde"]):
+                mf["observed"]["explained_by"] = {"table_keyed_by_operator_only": True, "operators_built_with_entries": d[3]}
+    for mf in fails:
+        ctx.monitor_fail(mf["leg"], mf["case"], mf["observed"], mf["expected"], "pdevars: " + KEY_PDEVARS["symptom"], key=KEY_PDEVARS)
+
+
 def jit_worker(item):
     """one process pool for everything that needs the JIT: compiled histories, compiled heap histories and the
     heap-dependence monitor on compiled operators"""
@@ -2342,6 +3215,8 @@ def jit_worker(item):
     if item.get("kind") == "heapdep":
         import pde  # noqa: F401
         return forked_call(real_heapdep_jit, item)
+    if item.get("kind") == "pdevars":
+        return pdevars_worker(item)
     return hist_worker(item)
 
 
@@ -2350,7 +3225,7 @@ def last_touches_cache(h):
     """non-triviality of a history: an earlier operation filled a cache the last call consults"""
     ops = h["ops"]
     last = ops[-1]
-    fam = {"make_operator": "op", "field_op": "op", "rate": "op", "rhs": "op", "solve": "op", "diffusion": "op", "evaluate": "op", "ghost_setter": "ghost",
+    fam = {"make_operator": "op", "field_op": "op", "rate": "op", "rhs": "op", "solve": "op", "diffusion": "op", "evaluate": "op", "backend_op": "op", "ghost_setter": "ghost",
            "interpolate": "interp", "nobc": "nobc"}
     return any(o["op"] in QUERY_OPS and fam.get(o["op"]) == fam.get(last["op"]) for o in ops[:-1])
 
@@ -2376,6 +3251,49 @@ def frozen_const_pattern(h):
     return False
 
 
+REREG_CALL_SITE = {"field_op": "DataFieldBase.apply_operator", "make_operator": "GridBase.make_operator", "nobc": "GridBase.make_operator_no_bc",
+                   "backend_op": "NumbaBackend.make_operator", "rate": "PDE._prepare_cache", "rhs": "PDE._prepare_cache", "solve": "PDE._prepare_cache",
+                   "evaluate": "evaluate"}
+
+
+def rereg_key(h):
+    """histories with registrations whose last query uses a registered name: the key names the call site of the last query.
+    The three call sites of finding I get their narrow key only in the situation of the finding: the SAME cache (grid
+    object / backend / PDE object and its backend) was asked with the name before the last change of the registry."""
+    ops = h["ops"]
+    last = ops[-1]
+    changes = [i for i, o in enumerate(ops) if o["op"] in ("register", "unregister")]
+    if not changes:
+        return None
+    names = {o["name"] for o in ops if o["op"] in ("register", "unregister")}
+    pdes = {o["name"]: o for o in ops if o["op"] == "pde"}
+
+    def uses(o):
+        if o["op"] in ("rate", "rhs", "solve"):
+            return any(n + "(" in "".join(pdes.get(o.get("pde"), {}).get("rhs", {}).values()) for n in names)
+        if o["op"] == "evaluate":
+            return any(n + "(" in o.get("expr", "") for n in names)
+        return o.get("operator") in names
+    if last["op"] not in REREG_CALL_SITE or not uses(last):
+        return None
+    pde_backend = lambda o: "numpy" if o["op"] == "rate" else o.get("backend")
+    before = [o for o in ops[:changes[-1]] if o["op"] == last["op"] or (last["op"] in ("rate", "rhs", "solve") and o["op"] in ("rate", "rhs", "solve"))]
+    if last["op"] == "nobc" and any(o["grid"] == last["grid"] and o.get("operator") == last["operator"] and o.get("backend") == last.get("backend") for o in before):
+        return KEY_REREG_NOBC
+    if last["op"] == "backend_op" and last.get("backend") == "numba" and any(o.get("operator") == last["operator"] and o.get("backend") == "numba" for o in before):
+        return KEY_REREG_BACKEND
+    if last["op"] in ("rate", "rhs", "solve") and any(o.get("pde") == last.get("pde") and pde_backend(o) == pde_backend(last) for o in before):
+        return KEY_REREG_PDE
+    return {"call_site": REREG_CALL_SITE[last["op"]], "argument": "operator given by name",
+            "symptom": "result differs from a fresh process that performed only the last registration"}
+
+
+def hist_what(key):
+    """the group a failing history is reported in (one replay file per group): histories with registrations are grouped by
+    the call site of the last query"""
+    return "history: " + (str(key.get("call_site")) + ": " if "argument" in key else "") + str(key.get("symptom"))
+
+
 def history_key(h, res, mode="S"):
     """which defect a failing history exhibits (for known_findings matching)"""
     ops = h["ops"]
@@ -2385,6 +3303,9 @@ def history_key(h, res, mode="S"):
         return dict(KEY_CRASH, call_site="history:" + last["op"])
     if isinstance(res, dict) and res.get("class") == "mutation":
         return {"call_site": "history:" + last["op"], "symptom": "an argument object of the caller is mutated (the value is not affected)"}
+    rk = rereg_key(h)
+    if rk is not None:
+        return rk
     if mode == "J" and frozen_const_pattern(h):
         return KEY_FROZEN
     if last["op"] == "interpolate" and kinds[:-1].count("interpolate") >= 1 and any(k in kinds for k in ("collection", "assign_full")):
@@ -2407,23 +3328,33 @@ def history_key(h, res, mode="S"):
 def run_histories(ctx):
     rng = ctx.rng
     n_s = ctx.budget(150, 1200)
-    n_j = ctx.budget(8, 48)
+    n_j = ctx.budget(6, 48)
     n_new = ctx.budget(8, 32)
     hs = [gen_history(rng, ctx.hist) for _ in range(n_s)] + fixed_histories()
+    pvs = fixed_pdevars() + [gen_pdevars(rng, ctx.hist) for _ in range(ctx.budget(36, 400))]
     t0, c0 = time.time(), _cpu()
-    res = run_many("harness.c04", "hist_worker", hs, env={"NUMBA_DISABLE_JIT": "1"}, procs=16)
+    items = [x for tpl in itertools.zip_longest(hs, pvs) for x in tpl if x is not None]
+    res_items = run_many("harness.c04", "clean_worker", items, env={"NUMBA_DISABLE_JIT": "1"}, procs=16)
+    by_id = {id(x): r for x, r in zip(items, res_items)}
+    res = [by_id[id(h)] for h in hs]
+    res_pvs = [by_id[id(c)] for c in pvs]
     ctx.extra["t_hist_S"] = [round(time.time() - t0, 1), round(_cpu() - c0, 1)]
     t0, c0 = time.time(), _cpu()
     hj = [gen_history(rng, ctx.hist, jit=True) for _ in range(n_j)] + fixed_histories()[:2] + fixed_histories_jit()
-    heapj = fixed_heap_jit() + [gen_heap_jit_case(rng, ctx.hist) for _ in range(ctx.budget(2, 20))]
+    heapj = fixed_heap_jit() + [gen_heap_jit_case(rng, ctx.hist) for _ in range(ctx.budget(1, 20))]
     depj = fixed_heapdep_jit() + [gen_heapdep_jit(rng, ctx.hist) for _ in range(ctx.budget(0, 10))]
-    # interleave so that every process gets its share of all kinds (quick: 16 items for 16 processes)
-    items = [x for tpl in itertools.zip_longest(hj, heapj, depj) for x in tpl if x is not None]
+    pvj = fixed_pdevars(jit=True) + [gen_pdevars(rng, ctx.hist, jit=True) for _ in range(ctx.budget(1, 10))]
+    # interleave so that every process gets its share of all kinds
+    items = [x for tpl in itertools.zip_longest(hj, heapj, depj, pvj) for x in tpl if x is not None]
     res_items = run_many("harness.c04", "jit_worker", items, env={"NUMBA_DISABLE_JIT": "0"}, procs=16)
     by_id = {id(x): r for x, r in zip(items, res_items)}
     resj = [by_id[id(h)] for h in hj]
     judge_heap_jit(ctx, heapj, [by_id[id(c)] for c in heapj])
     judge_heapdep_jit(ctx, depj, [by_id[id(c)] for c in depj])
+    from harness.common.lean import LeanBatch
+    bpv = LeanBatch(ctx.workdir)
+    pend_pv = pdevars_pending(ctx, bpv, pvs, res_pvs, "pdevars:S") + pdevars_pending(ctx, bpv, pvj, [by_id[id(c)] for c in pvj], "pdevars:J")
+    judge_pdevars(ctx, pend_pv, bpv.run())
     ctx.extra["t_hist_J"] = [round(time.time() - t0, 1), round(_cpu() - c0, 1)]
     for mode, hl, rl in (("S", hs, res), ("J", hj, resj)):
         for h, r in zip(hl, rl):
@@ -2449,7 +3380,7 @@ def run_histories(ctx):
                 hh = r.get("shrunk", h)
                 key = history_key(hh, r, mode)
                 ctx.monitor_fail(leg, hh, {"last_result_in_history": r["full"], "failure_class": r.get("class")},
-                                 {"same_call_in_fresh_interpreter": r["fresh"]}, "history: " + str(key.get("symptom")), key=key)
+                                 {"same_call_in_fresh_interpreter": r["fresh"]}, hist_what(key), key=key)
     # a subset in really new interpreters (one history per process), validating the fork shortcut
     from harness.common.lean import BrokenCheck
     t0, c0 = time.time(), _cpu()
@@ -2475,7 +3406,7 @@ def run_histories(ctx):
                 # the forked run of this history agreed: a difference (or a dead interpreter) here is one more failure
                 key = history_key(h, {"one_sided": _crash(a) or _crash(b), "class": hist_class(a, b)}, "S")
                 ctx.monitor_fail("histories:new-interpreter", h, {"last_result_in_history": a, "failure_class": hist_class(a, b)}, {"same_call_in_fresh_interpreter": b},
-                                 "history: " + str(key.get("symptom")), key=key)
+                                 hist_what(key), key=key)
     ctx.extra["t_hist_new"] = [round(time.time() - t0, 1), round(_cpu() - c0, 1)]
 
 
@@ -2537,6 +3468,7 @@ def fixed_histories():
             {"op": "pde", "name": "p0", "rhs": {"c": "laplace(c)"}, "bc": "auto_periodic_neumann", "consts": {}},
             {"op": q, "pde": "p0", "state": "f0", "backend": "numba"},
             {"op": q, "pde": "p0", "state": "f1", "backend": "numba"}]})
+    out += fixed_histories_rereg()
     # D
     gm1 = {"cls": "CartesianGrid", "shape": [4], "bounds": [[-1.0, 1.0]], "periodic": [False]}
     gm2 = {"cls": "CartesianGrid", "shape": [4], "bounds": [[-2.0, 1.0]], "periodic": [False]}
@@ -2550,6 +3482,32 @@ def fixed_histories():
     return out
 
 
+def fixed_histories_rereg(sites=("field_op", "make_operator", "nobc", "backend_op", "pde_same", "field_op:other", "field_op:removed")):
+    """a custom operator registered twice under one name (2*c, then 3*c), asked through every call site on the grid object
+    that was asked before the second registration (seeded change C04-3: `field_op`; finding I: `nobc`, `backend_op`,
+    `pde_same`), on the equal grid object that was never asked, and after the removal of the entry"""
+    g4 = {"cls": "UnitGrid", "shape": [4], "bounds": [[0.0, 4.0]], "periodic": [False]}
+    slot = {"backend": "numba", "grid_cls": "UnitGrid", "name": "cop"}
+    bc = "auto_periodic_neumann"
+    out = []
+    for site in sites:
+        site, _, how = site.partition(":")
+        gi = 1 if how == "other" else 0
+        q = {"field_op": lambda g: {"op": "field_op", "field": f"f{g}", "operator": "cop", "bc": bc, "backend": "numba"},
+             "make_operator": lambda g: {"op": "make_operator", "grid": g, "operator": "cop", "bc": bc, "backend": "numba", "seed": 3},
+             "nobc": lambda g: {"op": "nobc", "grid": g, "operator": "cop", "backend": "numba", "kwargs": [], "seed": 3},
+             "backend_op": lambda g: {"op": "backend_op", "grid": g, "operator": "cop", "bc": bc, "backend": "numba", "seed": 3},
+             "pde_same": lambda g: {"op": "rate", "pde": "p0", "state": f"f{g}"}}[site]
+        change = dict({"op": "unregister"}, **slot) if how == "removed" else dict({"op": "register", "factory": {"kind": "scale", "f": 3.0}, "fid": 2}, **slot)
+        out.append({"grids": [g4, g4], "ops": [
+            {"op": "field", "name": "f0", "grid": 0, "rank": 0, "seed": 1},
+            {"op": "field", "name": "f1", "grid": 1, "rank": 0, "seed": 1},
+            {"op": "pde", "name": "p0", "rhs": {"c": "cop(c)"}, "bc": bc, "consts": {}},
+            dict({"op": "register", "factory": {"kind": "scale", "f": 2.0}, "fid": 1}, **slot),
+            q(0), change, q(gi)]})
+    return out
+
+
 def fixed_histories_jit():
     """compiled only: finding E (in-place write to a field-valued constant between two requests of the compiled rhs)"""
     g4 = {"cls": "UnitGrid", "shape": [4], "bounds": [[0.0, 4.0]], "periodic": [False]}
@@ -2559,7 +3517,7 @@ def fixed_histories_jit():
         {"op": "pde", "name": "p0", "rhs": {"c": "k * c"}, "bc": "auto_periodic_neumann", "consts": {"k": ["field", "f1"]}},
         {"op": "rhs", "pde": "p0", "state": "f0", "backend": "numba"},
         {"op": "write", "field": "f1", "seed": 3},
-        {"op": "rhs", "pde": "p0", "state": "f0", "backend": "numba"}]}]
+        {"op": "rhs", "pde": "p0", "state": "f0", "backend": "numba"}]}] + fixed_histories_rereg(sites=("field_op",))
 
 
 def died(ctx, leg, case, r, call_site):
@@ -2574,11 +3532,28 @@ def died(ctx, leg, case, r, call_site):
         ctx.disagree("worker-exception", case, "no exception", r[-600:], "unexpected exception while executing the real code for this case")
 
 
-def run_heap(ctx, batch):
+def light_worker(case):
+    """heap and registry cases share one pool of interpreters (every pool costs 16 imports of pde)"""
+    return real_registry(case) if case.get("kind") == "registry" else real_heap(case)
+
+
+def light_worker_forked(case):
+    import pde  # noqa: F401
+    return forked_call(real_registry if case.get("kind") == "registry" else real_heap, case)
+
+
+def run_heap_registry(ctx, batch):
     rng = ctx.rng
-    n = ctx.budget(400, 5000)
-    cases = [gen_heap_case(rng, ctx.hist) for _ in range(n)]
-    res = run_resilient("heap_worker", cases, {"NUMBA_DISABLE_JIT": "1"})
+    heap = [gen_heap_case(rng, ctx.hist) for _ in range(ctx.budget(400, 5000))]
+    reg = fixed_registry_cases() + [gen_registry_case(rng, ctx.hist) for _ in range(ctx.budget(150, 1500))]
+    # interleaved, so that the contiguous shares of the processes are balanced
+    tagged = [x for tpl in itertools.zip_longest(heap, reg) for x in tpl if x is not None]
+    res = run_resilient("light_worker", tagged, {"NUMBA_DISABLE_JIT": "1"})
+    by_id = {id(c): r for c, r in zip(tagged, res)}
+    return pend_heap(ctx, batch, heap, [by_id[id(c)] for c in heap]), pend_registry(ctx, batch, reg, [by_id[id(c)] for c in reg])
+
+
+def pend_heap(ctx, batch, cases, res):
     pend = []
     for c, r in zip(cases, res):
         if isinstance(r, str):
@@ -2692,6 +3667,9 @@ def _cpu():
     return r.ru_utime + r.ru_stime
 
 
+ALL_LEGS = "pairs,heap,histories"  # heap: + registry; histories: + pdevars
+
+
 def _selftest():
     """the comparison the monitors rest on (reviewer finding 8): elementwise, NaN- and inf-safe"""
     inf, nan = float("inf"), float("nan")
@@ -2715,25 +3693,26 @@ def run(ctx):
     err = _selftest()
     if err:
         raise BrokenCheck("C04 self-test: " + err)
-    legs = os.environ.get("C04_LEGS", "pairs,heap,histories").split(",")  # dev only: subset of the legs (the run then ends as BROKEN-CHECK)
+    legs = os.environ.get("C04_LEGS", ALL_LEGS).split(",")  # dev only: subset of the legs (the run then ends as BROKEN-CHECK)
     batch = LeanBatch(ctx.workdir)
     t0, c0 = time.time(), _cpu()
     pending = run_pairs(ctx, batch) if "pairs" in legs else []
     ctx.extra["t_pairs_real"] = [round(time.time() - t0, 1), round(_cpu() - c0, 1)]
     t0, c0 = time.time(), _cpu()
-    heap = run_heap(ctx, batch) if "heap" in legs else []
-    ctx.extra["t_heap_real"] = [round(time.time() - t0, 1), round(_cpu() - c0, 1)]
+    heap, registry = run_heap_registry(ctx, batch) if "heap" in legs else ([], [])
+    ctx.extra["t_heap_registry_real"] = [round(time.time() - t0, 1), round(_cpu() - c0, 1)]
     t0, c0 = time.time(), _cpu()
     answers = batch.run()
     ctx.extra["t_model"] = [round(time.time() - t0, 1), round(_cpu() - c0, 1)]
     judge_pairs(ctx, pending, answers)
     judge_heap(ctx, heap, answers)
+    judge_registry(ctx, registry, answers)
     t0 = time.time()
     if "histories" in legs:
         run_histories(ctx)
     ctx.extra["t_histories"] = round(time.time() - t0, 1)
     ctx.monitor_failures.sort(key=lambda m: len(json.dumps(m["case"], default=str)))
-    if set(legs) != {"pairs", "heap", "histories"}:
+    if set(legs) != set(ALL_LEGS.split(",")):
         # a development run of some legs must neither write evidence nor exit 0
         from harness.common.lean import BrokenCheck
         import collections
@@ -2846,6 +3825,33 @@ def replay(ctx, rep):
         st, val = b.run()[0]
         print("mode:", "compiled" if jit else "NUMBA_DISABLE_JIT=1", "read:", r["read"], "current content:", val.get("ref") if st == "ok" else val)
         return st == "ok" and list(val["ref"]) == list(r["read"])
+    if case.get("kind") == "registry":
+        r = _iso("registry_worker_forked", case, False)
+        if isinstance(r, str):
+            print("the real code died or raised:", r[-600:])
+            return False
+        b = LeanBatch(ctx.workdir)
+        b.add("c04.replay_registry", {"events": registry_model_events(case)})
+        st, val = b.run()[0]
+        print("factory applied by every query:", r["answers"], "- factory registered at that moment:", val.get("ref") if st == "ok" else val)
+        return st == "ok" and list(val["ref"]) == list(r["answers"])
+    if case.get("kind") == "pdevars":
+        jit = leg.endswith(":J") or bool(case.get("jit"))
+        r = _iso("pdevars_replay_worker", case, jit)
+        if isinstance(r, str):
+            print("worker exception:", r[-600:])
+            return False
+        names = [v["name"] for v in case["vars"]]
+        refs = {(i, q): x for i, q, x in r["refs"]}
+        for run, out in zip(case["runs"], r["runs"]):
+            if isinstance(out, str) or "rates" not in out:
+                print("the recorded configuration can no longer be evaluated (" + str(out)[:300] + "): counted as failing")
+                return False
+            for i in run["order"]:
+                print(json.dumps({"mode": "compiled" if jit else "NUMBA_DISABLE_JIT=1", "order": [names[j] for j in run["order"]], "query": run["query"], "variable": names[i],
+                                  "rate_in_multi_variable_pde": out["rates"][str(i)], "single_variable_pde_in_fresh_process": refs[(i, PDEVARS_REF_QUERY)]}, default=str)[:1500])
+        print("variables whose rate differs:", [[case["runs"][k]["order"], names[i]] for k, i in r["bad"]])
+        return not r["bad"]
     if case.get("kind") == "heapdep":
         res = _iso("jit_worker", case, True)
         if isinstance(res, str):
